@@ -9,10 +9,10 @@ AtomsFull == {Atom("bytes", b) : b \in BytesA} \cup {Atom("str", b) : b \in {<<>
              \cup {Atom("int", b) : b \in IntA} \cup {Atom("h256", b) : b \in HashA}
 AtomsMid3 == {Atom("bytes", <<>>), Atom("bool", <<1>>), Atom("int", Rep(255, 16))}
 AtomsDeep1 == {Atom("bool", <<1>>)}
-AtomsMid6 == AtomsMid3 \cup {Atom("str", <<104, 105>>), Atom("addr", Rep(255, 20)), Atom("h256", Rep(0, 32))}
+AtomsMid4 == AtomsMid3 \cup {Atom("str", <<104, 105>>)}
 AtomsDeep2 == {Atom("bool", <<1>>), Atom("bytes", <<1, 2>>)}
 ReplQ == {0, 1, 3, 16, 255}
-ReplT == {0, 1, 2, 3, 4, 5, 6, 16, 17, 128, 255}
+ReplT == {0, 1, 2, 3, 5, 6, 16, 17, 255}
 Edge == PrintT(<<"EDGE", ToJson([from |-> State, act |-> act', to |-> State'])>>)
 InitOut == (TLCGet("level") = 1) => PrintT(<<"INIT", ToJson(State)>>)
 =============================================================================
